@@ -176,6 +176,21 @@ pub fn run(ctx: &Ctx, out: &mut Out) {
             compare(ctx, out, &text, &graph_goal(&mut rng, n), "graph");
         }
     }
+    // 2b. provisional-result motif (see progen::provisional_program), inductive and coinductive
+    let nprov = ctx.budget(100, 4000);
+    for i in 0..nprov {
+        idx += 1;
+        if !ctx.mine(idx) {
+            continue;
+        }
+        let mut rng = ctx.rng(4, i as u64);
+        let co = rng.chance(1, 2);
+        let (text, _n, goals) = provisional_program(&mut rng, co);
+        out.count("provisional_programs");
+        for g in &goals {
+            compare(ctx, out, &text, g, "graph");
+        }
+    }
     // 2. generated programs (with and without coinductive traits; ground and existential goals)
     let nprog = ctx.budget(150, 6000);
     for i in 0..nprog {
